@@ -9,10 +9,13 @@ Record fobs := {
   fo_val : val;                       (* internal state of .data (VNone for header-only functions) *)
   fo_get : plain;
   fo_enc : option (list N);
-  fo_dec : option (string * val)      (* StreamsFunctions().decode(header S/F, body): class found, its internal state *)
+  fo_dec : option (string * val);     (* StreamsFunctions().decode(header S/F, body): class found, its internal state *)
+  fo_edited : bool                    (* the object was changed through one of its nested variables after it had been encoded once: fo_val /
+                                         fo_enc / fo_dec are the state and the encoding AFTER the edit; fo_in no longer describes it *)
 }.
 
 Definition fmodel_agree (o : fobs) : N :=
+  if fo_edited o then 1 else
   match lookup_sf catalogue (fo_s o) (fo_f o) with
   | Ok (Some e) =>
     match fn_construct e (fo_in o) with
